@@ -101,3 +101,7 @@ Definition run_lim (x : sx) : sx :=
   let max := sx_int (sx_nth 1 x) in
   let files := map (fun f => (sx_str (sx_nth 0 f), sx_int (sx_nth 1 f))) (sx_list (sx_nth 2 x)) in
   L (run_hops (hinit files max) (dec_hops (sx_list (sx_nth 3 x)))).
+
+(* the real-time runs of the limiter observe only what left the directory and what is in it *)
+Definition proj_limrt (o : sx) : sx := L (map (fun ob => L [sx_nth 3 ob; sx_nth 4 ob]) (sx_list o)).
+Definition run_limrt (x : sx) : sx := proj_limrt (run_lim x).
